@@ -616,6 +616,101 @@ func main() {
 	}
 	fact("insertBlock %v; saveStates %v; updateLastBlock %v; head writers %v; fork saveState %v", ib, ss, ul, headWriters, fs)
 
+	// ---- fork flags read and package-level state written on the state path (trie + account)
+	var flagReads, pkgWrites []string
+	for _, pkgdir := range []string{"src/storage/trie", "src/storage/account"} {
+		ents, _ := os.ReadDir(filepath.Join(repo, pkgdir))
+		var files []*ast.File
+		var names []string
+		pkgVars := map[string]bool{}
+		for _, e := range ents {
+			if e.IsDir() || !strings.HasSuffix(e.Name(), ".go") || strings.HasSuffix(e.Name(), "_test.go") {
+				continue
+			}
+			f, err := parser.ParseFile(fset, filepath.Join(repo, pkgdir, e.Name()), nil, 0)
+			if err != nil {
+				continue
+			}
+			files = append(files, f)
+			names = append(names, e.Name())
+			for _, d := range f.Decls {
+				if gd, ok := d.(*ast.GenDecl); ok && gd.Tok == token.VAR {
+					for _, sp := range gd.Specs {
+						for _, nm := range sp.(*ast.ValueSpec).Names {
+							pkgVars[nm.Name] = true
+						}
+					}
+				}
+			}
+		}
+		for i, f := range files {
+			for _, d := range f.Decls {
+				fd, ok := d.(*ast.FuncDecl)
+				if !ok || fd.Body == nil {
+					continue
+				}
+				where := pkgdir + "/" + names[i] + ":" + fd.Name.Name
+				// names bound locally in this function shadow package variables
+				local := map[string]bool{}
+				if fd.Recv != nil {
+					for _, fl := range fd.Recv.List {
+						for _, n := range fl.Names {
+							local[n.Name] = true
+						}
+					}
+				}
+				for _, fl := range fd.Type.Params.List {
+					for _, n := range fl.Names {
+						local[n.Name] = true
+					}
+				}
+				ast.Inspect(fd.Body, func(n ast.Node) bool {
+					switch x := n.(type) {
+					case *ast.AssignStmt:
+						if x.Tok == token.DEFINE {
+							for _, l := range x.Lhs {
+								if id, ok := l.(*ast.Ident); ok {
+									local[id.Name] = true
+								}
+							}
+						}
+					case *ast.ValueSpec:
+						for _, id := range x.Names {
+							local[id.Name] = true
+						}
+					}
+					return true
+				})
+				ast.Inspect(fd.Body, func(n ast.Node) bool {
+					switch x := n.(type) {
+					case *ast.CallExpr:
+						if sel, ok := x.Fun.(*ast.SelectorExpr); ok && src(sel.X) == "common" &&
+							(strings.HasPrefix(sel.Sel.Name, "IsProposal") || sel.Sel.Name == "IsSub" || sel.Sel.Name == "IsMainnet" ||
+								sel.Sel.Name == "IsRobin" || sel.Sel.Name == "IsDEV" || sel.Sel.Name == "GetBlockHeight" || sel.Sel.Name == "IsFullNode") {
+							flagReads = append(flagReads, where+":"+sel.Sel.Name)
+						}
+					case *ast.AssignStmt:
+						if x.Tok != token.DEFINE {
+							for _, l := range x.Lhs {
+								if id, ok := l.(*ast.Ident); ok && pkgVars[id.Name] && !local[id.Name] {
+									pkgWrites = append(pkgWrites, where+":"+id.Name)
+								}
+							}
+						}
+					case *ast.IncDecStmt:
+						if id, ok := x.X.(*ast.Ident); ok && pkgVars[id.Name] && !local[id.Name] {
+							pkgWrites = append(pkgWrites, where+":"+id.Name)
+						}
+					}
+					return true
+				})
+			}
+		}
+	}
+	sort.Strings(flagReads)
+	sort.Strings(pkgWrites)
+	fact("fork flag reads %v; package-level writes %v", flagReads, pkgWrites)
+
 	// ---- hasher.store: insert before onleaf
 	hf := parse(filepath.Join(repo, "src/storage/trie/hasher.go"))
 	store := findMethod(hf, "hasher", "store")
@@ -678,6 +773,8 @@ namespace Rangers.Generated.TrieDbFacts
 	fmt.Fprintf(&o, "/-- `blockChain.updateLastBlock`: the head record write and its error check. -/\ndef updateLastBlockSkeleton : List String := %s\n\n", leanStrList(ul))
 	fmt.Fprintf(&o, "/-- every `Put`/`Delete` of the head record key `latestBlockKey` in src/core (file:function:op). -/\ndef headRecordWriters : List String := %s\n\n", leanStrList(headWriters))
 	fmt.Fprintf(&o, "/-- `blockChainFork.saveState` (src/core/fork_block.go): the same commit pair. -/\ndef forkSaveStateSkeleton : List String := %s\n\n", leanStrList(fs))
+	fmt.Fprintf(&o, "/-- every read of a fork / network flag in src/storage/trie and src/storage/account (non-test). -/\ndef forkFlagReads : List String := %s\n\n", leanStrList(flagReads))
+	fmt.Fprintf(&o, "/-- every assignment to a package-level variable inside a function of those two packages. -/\ndef packageLevelWrites : List String := %s\n\n", leanStrList(pkgWrites))
 	fmt.Fprintf(&o, "/-- every assignment of something other than `true` to a `dirty*` field in src/storage/account (non-test). -/\ndef dirtyFlagClearSites : List String :=\n  %s\n\n", leanStrList(dirtyClears))
 	fmt.Fprintf(&o, "/-- every `delete(<dirty set>, …)` in src/storage/account (non-test). -/\ndef dirtySetDeleteSites : List String :=\n  %s\n\n", leanStrList(dirtyDeletes))
 	fmt.Fprintf(&o, "/-- every direct assignment to a `dirty*` field inside a journal undo (transition.go); undos go through the setters. -/\ndef undoDirtyFieldAssignments : List String := %s\n\n", leanStrList(undoDirty))
